@@ -146,7 +146,9 @@ structure Entry where
 /-- `archive_entry_new()`: calloc, `ae_symlink_type = AE_SYMLINK_TYPE_UNDEFINED`. -/
 def new : Entry := { ae_symlink_type := AE_SYMLINK_TYPE_UNDEFINED }
 
-def Entry.has (e : Entry) (f : Flags) : Bool := (e.ae_set &&& f) != 0
+/-- `(ae_set & FLAG) != 0` -/
+def hasF (s f : Flags) : Bool := (s &&& f) != 0
+def Entry.has (e : Entry) (f : Flags) : Bool := hasF e.ae_set f
 
 /-! ### times -/
 
@@ -183,19 +185,24 @@ def timeNsec (f : TimeField) (e : Entry) : Nat :=
 /-- `archive_entry_atime_is_set` … (`ae_set & AE_SET_ATIME`, observed as != 0) -/
 def timeIsSet (f : TimeField) (e : Entry) : Bool := e.has f.flag
 
+/-- The assignments of `archive_entry_set_atime` … after `FIX_NS`. -/
+def setTimeCore (f : TimeField) (e : Entry) (t : Int) (ns : Nat) : Entry :=
+  ({ e with stat_valid := false, ae_set := e.ae_set ||| f.flag }).withTime f t ns
+
 /-- `archive_entry_set_atime` / `_birthtime` / `_ctime` / `_mtime`
 (precondition of the C types: `inI64 t`, `inI64 ns`). -/
 def setTime (f : TimeField) (e : Entry) (t ns : Int) : Option Entry :=
-  match fixNs t ns with
-  | none => none
-  | some (t', ns') =>
-    some (({ e with stat_valid := false, ae_set := e.ae_set ||| f.flag }).withTime f t' ns'.toNat)
+  (fixNs t ns).map fun p => setTimeCore f e p.1 p.2.toNat
+
+/-- The assignments of `archive_entry_unset_atime` …: those of `set_X(entry, 0, 0)`
+(`FIX_NS(0, 0)` is `(0, 0)`), then `ae_set &= ~AE_SET_X`. -/
+def unsetTimeCore (f : TimeField) (e : Entry) : Entry :=
+  let e' := setTimeCore f e 0 0
+  { e' with ae_set := e'.ae_set &&& ~~~f.flag }
 
 /-- `archive_entry_unset_atime` …: `set_X(entry, 0, 0); ae_set &= ~AE_SET_X`. -/
 def unsetTime (f : TimeField) (e : Entry) : Option Entry :=
-  match setTime f e 0 0 with
-  | none => none
-  | some e' => some { e' with ae_set := e'.ae_set &&& ~~~f.flag }
+  (setTime f e 0 0).map fun e' => { e' with ae_set := e'.ae_set &&& ~~~f.flag }
 
 /-! ### size, ids, link count -/
 
@@ -326,7 +333,7 @@ def setHardlink (e : Entry) (v : Option Bytes) : Entry :=
   match v with
   | none =>
     let e1 := { e with ae_set := e.ae_set &&& ~~~fHARDLINK }
-    if e1.has fSYMLINK then e1
+    bif e1.has fSYMLINK then e1
     else { e1 with ae_set := e1.ae_set &&& ~~~fSYMLINK, ae_linkname := none }
   | some s =>
     let e1 := { e with ae_set := e.ae_set ||| fHARDLINK }
@@ -335,33 +342,32 @@ def setHardlink (e : Entry) (v : Option Bytes) : Entry :=
 /-- `archive_entry_copy_hardlink`, `_copy_hardlink_w`, `_set_hardlink_utf8`,
 `_update_hardlink_utf8` (after the fix: they clear AE_SET_SYMLINK). -/
 def copyHardlink (e : Entry) (v : Option Bytes) : Entry :=
-  if v.isNone && e.has fSYMLINK then e else
+  bif v.isNone && e.has fSYMLINK then e else
   let e1 := { e with ae_set := e.ae_set &&& ~~~fSYMLINK, ae_linkname := v }
-  if v.isSome then { e1 with ae_set := e1.ae_set ||| fHARDLINK }
+  bif v.isSome then { e1 with ae_set := e1.ae_set ||| fHARDLINK }
   else { e1 with ae_set := e1.ae_set &&& ~~~fHARDLINK }
 
 /-- `archive_entry_set_symlink`, `_set_symlink_utf8`, `_copy_symlink`,
 `_copy_symlink_w`, `_update_symlink_utf8` -/
 def setSymlink (e : Entry) (v : Option Bytes) : Entry :=
-  if v.isNone && e.has fHARDLINK then e else
+  bif v.isNone && e.has fHARDLINK then e else
   let e1 := { e with ae_linkname := v, ae_set := e.ae_set &&& ~~~fHARDLINK }
-  if v.isNone then { e1 with ae_set := e1.ae_set &&& ~~~fSYMLINK }
+  bif v.isNone then { e1 with ae_set := e1.ae_set &&& ~~~fSYMLINK }
   else { e1 with ae_set := e1.ae_set ||| fSYMLINK }
 
 /-- `archive_entry_set_link`, `_set_link_utf8`, `_copy_link`, `_copy_link_w`,
 `_update_link_utf8`: "set symlink if symlink is already set, else set hardlink". -/
 def setLink (e : Entry) (v : Option Bytes) : Entry :=
   let e1 := { e with ae_linkname := v }
-  if !e1.has fSYMLINK then { e1 with ae_set := e1.ae_set ||| fHARDLINK } else e1
+  bif !e1.has fSYMLINK then { e1 with ae_set := e1.ae_set ||| fHARDLINK } else e1
 
-/-- `archive_entry_set_link_to_hardlink` -/
+/-- `archive_entry_set_link_to_hardlink`:
+`if (ae_set & AE_SET_SYMLINK) ae_set &= ~AE_SET_SYMLINK; ae_set |= AE_SET_HARDLINK;` -/
 def setLinkToHardlink (e : Entry) : Entry :=
-  let e1 := if e.has fSYMLINK then { e with ae_set := e.ae_set &&& ~~~fSYMLINK } else e
-  { e1 with ae_set := e1.ae_set ||| fHARDLINK }
+  { e with ae_set := (bif e.has fSYMLINK then e.ae_set &&& ~~~fSYMLINK else e.ae_set) ||| fHARDLINK }
 /-- `archive_entry_set_link_to_symlink` -/
 def setLinkToSymlink (e : Entry) : Entry :=
-  let e1 := if e.has fHARDLINK then { e with ae_set := e.ae_set &&& ~~~fHARDLINK } else e
-  { e1 with ae_set := e1.ae_set ||| fSYMLINK }
+  { e with ae_set := (bif e.has fHARDLINK then e.ae_set &&& ~~~fHARDLINK else e.ae_set) ||| fSYMLINK }
 
 /-- `archive_entry_hardlink`, `_hardlink_utf8`, `_hardlink_w` -/
 def hardlink (e : Entry) : Option Bytes := if e.has fHARDLINK then e.ae_linkname else none
@@ -384,11 +390,11 @@ def symlinkType (e : Entry) : Int := e.ae_symlink_type
 
 /-- `archive_entry_set_is_data_encrypted` -/
 def setIsDataEncrypted (e : Entry) (b : Bool) : Entry :=
-  if b then { e with encryption := e.encryption ||| encDATA }
+  bif b then { e with encryption := e.encryption ||| encDATA }
   else { e with encryption := e.encryption &&& ~~~encDATA }
 /-- `archive_entry_set_is_metadata_encrypted` -/
 def setIsMetadataEncrypted (e : Entry) (b : Bool) : Entry :=
-  if b then { e with encryption := e.encryption ||| encMETADATA }
+  bif b then { e with encryption := e.encryption ||| encMETADATA }
   else { e with encryption := e.encryption &&& ~~~encMETADATA }
 def isDataEncrypted (e : Entry) : Bool := (e.encryption &&& encDATA) == encDATA
 def isMetadataEncrypted (e : Entry) : Bool := (e.encryption &&& encMETADATA) == encMETADATA
@@ -397,12 +403,12 @@ def isEncrypted (e : Entry) : Nat := (e.encryption &&& (encDATA ||| encMETADATA)
 
 /-! ### Mac metadata blob, digests -/
 
+def normMac : Option Bytes → Option Bytes
+  | none => none
+  | some [] => none
+  | some b => some b
 /-- `archive_entry_copy_mac_metadata`: NULL or size 0 stores (NULL, 0) -/
-def copyMacMetadata (e : Entry) (v : Option Bytes) : Entry :=
-  match v with
-  | none => { e with mac_metadata := none }
-  | some [] => { e with mac_metadata := none }
-  | some b => { e with mac_metadata := some b }
+def copyMacMetadata (e : Entry) (v : Option Bytes) : Entry := { e with mac_metadata := normMac v }
 /-- `archive_entry_mac_metadata` -/
 def macMetadata (e : Entry) : Option Bytes := e.mac_metadata
 
@@ -413,10 +419,12 @@ def digestIndex (t : Int) : Option (Nat × Nat) :=
 
 /-- `archive_entry_set_digest`: copies `sizeof(field)` bytes from the caller's
 buffer (precondition: the buffer is at least that long); unknown type → WARN. -/
-def setDigest (e : Entry) (t : Int) (d : Bytes) : Entry × Bool :=
+def setDigestL (ds : List Bytes) (t : Int) (d : Bytes) : List Bytes :=
   match digestIndex t with
-  | none => (e, false)
-  | some (i, n) => ({ e with digests := e.digests.set i (d.take n) }, true)
+  | none => ds
+  | some (i, n) => ds.set i (d.take n)
+def setDigest (e : Entry) (t : Int) (d : Bytes) : Entry × Bool :=
+  ({ e with digests := setDigestL e.digests t d }, (digestIndex t).isSome)
 /-- `archive_entry_digest` (NULL for an unknown type) -/
 def digest (e : Entry) (t : Int) : Option Bytes :=
   match digestIndex t with
@@ -428,38 +436,49 @@ def digest (e : Entry) (t : Int) : Option Bytes :=
 /-- `archive_entry_sparse_clear` (after the fix: also resets the cursor) -/
 def sparseClear (e : Entry) : Entry := { e with sparse := [], sparse_p := none }
 
+/-- `archive_entry_sparse_add_entry` on the list (`sz` = `archive_entry_size`) -/
+def sparseAddL (sz : Int) (sp : List (Int × Int)) (offset length : Int) : List (Int × Int) :=
+  if offset < 0 || length < 0 then sp else
+  if offset > INT64_MAX - length || offset + length > sz then sp else
+  match sp.getLast? with
+  | some (so, sl) =>
+    if so + sl > offset then sp
+    else if so + sl == offset then
+      if so + sl + length < 0 then sp
+      else sp.dropLast ++ [(so, sl + length)]
+    else sp ++ [(offset, length)]
+  | none => sp ++ [(offset, length)]
+
 /-- `archive_entry_sparse_add_entry` -/
 def sparseAdd (e : Entry) (offset length : Int) : Entry :=
-  if offset < 0 || length < 0 then e else
-  if offset > INT64_MAX - length || offset + length > size e then e else
-  match e.sparse.getLast? with
-  | some (so, sl) =>
-    if so + sl > offset then e
-    else if so + sl == offset then
-      if so + sl + length < 0 then e
-      else { e with sparse := e.sparse.dropLast ++ [(so, sl + length)] }
-    else { e with sparse := e.sparse ++ [(offset, length)] }
-  | none => { e with sparse := e.sparse ++ [(offset, length)] }
+  { e with sparse := sparseAddL (size e) e.sparse offset length }
+
+/-- the test in `archive_entry_sparse_count`: exactly one block, at offset 0, at least as long as the file -/
+def sparseWhole (sz : Int) : List (Int × Int) → Bool
+  | [(o, l)] => o == 0 && decide (l ≥ sz)
+  | _ => false
 
 /-- `archive_entry_sparse_count`: a single block that covers the whole file is
 dropped (this getter changes the entry). -/
 def sparseCount (e : Entry) : Entry × Nat :=
-  match e.sparse with
-  | [(o, l)] => if o == 0 && l ≥ size e then (sparseClear e, 0) else (e, 1)
-  | l => (e, l.length)
+  bif sparseWhole (size e) e.sparse then (sparseClear e, 0) else (e, e.sparse.length)
 
 /-- `archive_entry_sparse_reset` -/
 def sparseReset (e : Entry) : Entry × Nat :=
-  sparseCount { e with sparse_p := if e.sparse.isEmpty then none else some 0 }
+  sparseCount { e with sparse_p := bif e.sparse.isEmpty then none else some 0 }
 
-/-- `archive_entry_sparse_next`: `(ok, offset, length)` -/
-def sparseNext (e : Entry) : Entry × Bool × Int × Int :=
-  match e.sparse_p with
-  | none => (e, false, 0, 0)
-  | some k =>
-    match e.sparse[k]? with
-    | none => (e, false, 0, 0)      -- unreachable: the cursor always names a node
-    | some (o, l) => ({ e with sparse_p := if k + 1 < e.sparse.length then some (k + 1) else none }, true, o, l)
+/-- the cursor after `archive_entry_sparse_next` -/
+def sparseNextP (sp : List (Int × Int)) : Option Nat → Option Nat
+  | none => none
+  | some k => if k + 1 < sp.length then some (k + 1) else none
+/-- the block `archive_entry_sparse_next` hands out -/
+def sparseNextV (sp : List (Int × Int)) : Option Nat → Option (Int × Int)
+  | none => none
+  | some k => sp[k]?
+/-- `archive_entry_sparse_next`: the block under the cursor (`none` = ARCHIVE_WARN, offset
+and length zeroed), cursor moved to `->next` -/
+def sparseNext (e : Entry) : Entry × Option (Int × Int) :=
+  ({ e with sparse_p := sparseNextP e.sparse e.sparse_p }, sparseNextV e.sparse e.sparse_p)
 
 /-! ### extended attributes -/
 
@@ -472,10 +491,8 @@ def xattrCount (e : Entry) : Nat := e.xattrs.length
 def xattrReset (e : Entry) : Entry × Nat := ({ e with xattr_p := e.xattrs.length }, e.xattrs.length)
 /-- `archive_entry_xattr_next` -/
 def xattrNext (e : Entry) : Entry × Option (Bytes × Bytes) :=
-  if e.xattr_p == 0 then (e, none) else
-  match e.xattrs[e.xattrs.length - e.xattr_p]? with
-  | none => (e, none)               -- unreachable: xattr_p ≤ length
-  | some x => ({ e with xattr_p := e.xattr_p - 1 }, some x)
+  ({ e with xattr_p := e.xattr_p - 1 },
+   bif e.xattr_p == 0 then none else e.xattrs[e.xattrs.length - e.xattr_p]?)
 
 /-! ### struct stat in and out -/
 
@@ -489,20 +506,18 @@ def statOf (e : Entry) : StatRec :=
     ino := (ino e).toNat % two64, nlink := nlink e, rdev := rdev e,
     size := size e, mode := (mode e).toNat }
 
-/-- `archive_entry_stat`: regenerate unless `stat_valid`. -/
+/-- `archive_entry_stat`: regenerate unless `stat_valid` (then `stat_valid = 1`). -/
 def stat (e : Entry) : Entry × StatRec :=
-  if e.stat_valid then (e, e.stat_cache)
-  else
-    let s := statOf e
-    ({ e with stat_cache := s, stat_valid := true }, s)
+  let s := bif e.stat_valid then e.stat_cache else statOf e
+  ({ e with stat_cache := s, stat_valid := true }, s)
 
-/-- `archive_entry_copy_stat` on Linux/glibc (the `st_atim.tv_nsec` branch, no
-`st_birthtime`): the same sequence of public setters. -/
-def copyStat (e : Entry) (st : StatRec) : Option Entry := do
-  let e ← setTime .atime e st.atime st.atime_nsec
-  let e ← setTime .ctime e st.ctime st.ctime_nsec
-  let e ← setTime .mtime e st.mtime st.mtime_nsec
-  let e ← unsetTime .birthtime e
+/-- The setter calls of `archive_entry_copy_stat` after the three `FIX_NS`
+(`a`, `c`, `m` are the normalised access, change and modification times). -/
+def copyStatCore (e : Entry) (st : StatRec) (a c m : Int × Int) : Entry :=
+  let e := setTimeCore .atime e a.1 a.2.toNat
+  let e := setTimeCore .ctime e c.1 c.2.toNat
+  let e := setTimeCore .mtime e m.1 m.2.toNat
+  let e := unsetTimeCore .birthtime e
   let e := setDev e st.dev
   let e := setGid e (st.gid % two32 : Nat)
   let e := setUid e (st.uid % two32 : Nat)
@@ -510,7 +525,16 @@ def copyStat (e : Entry) (st : StatRec) : Option Entry := do
   let e := setNlink e st.nlink
   let e := setRdev e st.rdev
   let e := setSize e st.size
-  pure (setMode e (BitVec.ofNat 32 st.mode))
+  setMode e (BitVec.ofNat 32 st.mode)
+
+/-- `archive_entry_copy_stat` on Linux/glibc (the `st_atim.tv_nsec` branch, no
+`st_birthtime`): set_atime, set_ctime, set_mtime, unset_birthtime, set_dev,
+set_gid, set_uid, set_ino, set_nlink, set_rdev, set_size, set_mode.  Undefined
+as soon as one of the three `FIX_NS` is. -/
+def copyStat (e : Entry) (st : StatRec) : Option Entry :=
+  match fixNs st.atime st.atime_nsec, fixNs st.ctime st.ctime_nsec, fixNs st.mtime st.mtime_nsec with
+  | some a, some c, some m => some (copyStatCore e st a c m)
+  | _, _, _ => none
 
 /-! ### strmode -/
 
